@@ -109,6 +109,85 @@ Proof. exact two_unsew3_vertex_data_both. Qed.
 Print Assumptions C05_two_unsew_vertex_data_both.
 
 
+(** The same for every other registered attribute kind (its own merge / split law, injected law failures included):
+    edge-bound kinds under the edge identifiers (orbit minima [is_eid3] before / after the link), vertex-bound kinds at
+    the ends that meet, as successive effects through intermediate stores; kinds bound to other cells untouched. *)
+From HC Require Import Map2.SewAttr.
+Theorem C05_two_sew_attr_data_none `{Sig} : forall E n ks l r c w cnt w' cnt',
+  dom3_ok E n -> rng3 n w -> l <> 0 -> l < n -> r <> 0 -> r < n -> beta w 1 l = 0 -> beta w 1 r = 0 -> NoDup (map fst ks) ->
+  run E (two_sew3 n ks l r) c w cnt = (Done tt, w', cnt') ->
+  exists el er en, is_eid3 n w l el /\ is_eid3 n w r er /\ is_eid3 n (set2 w l r) l en /\ attrs_effect ks KEdge w w' el er en.
+Proof. exact two_sew3_attr_data_none. Qed.
+Print Assumptions C05_two_sew_attr_data_none.
+
+Theorem C05_two_sew_attr_data_left `{Sig} : forall E n ks l r c w cnt w' cnt',
+  dom3_ok E n -> rng3 n w -> l <> 0 -> l < n -> r <> 0 -> r < n -> beta w 1 l = 0 -> beta w 1 r <> 0 -> NoDup (map fst ks) ->
+  run E (two_sew3 n ks l r) c w cnt = (Done tt, w', cnt') ->
+  exists i1 i2 i' el er en wa,
+    is_vid3 n w l i1 /\ is_vid3 n w (beta w 1 r) i2 /\ is_vid3 n (set2 w l r) l i' /\ is_eid3 n w l el /\ is_eid3 n w r er /\ is_eid3 n (set2 w l r) l en /\
+    attrs_effect ks KVertex w wa i1 i2 i' /\ attrs_effect ks KEdge wa w' el er en.
+Proof. exact two_sew3_attr_data_left. Qed.
+Print Assumptions C05_two_sew_attr_data_left.
+
+Theorem C05_two_sew_attr_data_right `{Sig} : forall E n ks l r c w cnt w' cnt',
+  dom3_ok E n -> rng3 n w -> l <> 0 -> l < n -> r <> 0 -> r < n -> beta w 1 l <> 0 -> beta w 1 r = 0 -> NoDup (map fst ks) ->
+  run E (two_sew3 n ks l r) c w cnt = (Done tt, w', cnt') ->
+  exists i1 i2 i' el er en wa,
+    is_vid3 n w (beta w 1 l) i1 /\ is_vid3 n w r i2 /\ is_vid3 n (set2 w l r) r i' /\ is_eid3 n w l el /\ is_eid3 n w r er /\ is_eid3 n (set2 w l r) l en /\
+    attrs_effect ks KVertex w wa i1 i2 i' /\ attrs_effect ks KEdge wa w' el er en.
+Proof. exact two_sew3_attr_data_right. Qed.
+Print Assumptions C05_two_sew_attr_data_right.
+
+Theorem C05_two_sew_attr_data_both `{Sig} : forall E n ks l r c w cnt w' cnt',
+  dom3_ok E n -> rng3 n w -> l <> 0 -> l < n -> r <> 0 -> r < n -> beta w 1 l <> 0 -> beta w 1 r <> 0 -> NoDup (map fst ks) ->
+  run E (two_sew3 n ks l r) c w cnt = (Done tt, w', cnt') ->
+  exists i1 i2 i3 i4 iL iR el er en wa wb,
+    is_vid3 n w l i1 /\ is_vid3 n w (beta w 1 r) i2 /\ is_vid3 n w (beta w 1 l) i3 /\ is_vid3 n w r i4 /\
+    is_vid3 n (set2 w l r) l iL /\ is_vid3 n (set2 w l r) r iR /\ is_eid3 n w l el /\ is_eid3 n w r er /\ is_eid3 n (set2 w l r) l en /\
+    attrs_effect ks KVertex w wa i1 i2 iL /\ attrs_effect ks KVertex wa wb i3 i4 iR /\ attrs_effect ks KEdge wb w' el er en.
+Proof. exact two_sew3_attr_data_both. Qed.
+Print Assumptions C05_two_sew_attr_data_both.
+
+Theorem C05_two_unsew_attr_data_none `{Sig} : forall E n ks l c w cnt w' cnt',
+  dom3_ok E n -> rng3 n w -> l <> 0 -> l < n -> beta w 2 l <> 0 -> beta w 1 l = 0 -> beta w 1 (beta w 2 l) = 0 -> NoDup (map fst ks) ->
+  run E (two_unsew3 n ks l) c w cnt = (Done tt, w', cnt') ->
+  let r := beta w 2 l in let w1 := clr2 w l r in
+  exists eo enl enr, is_eid3 n w l eo /\ is_eid3 n w1 l enl /\ is_eid3 n w1 r enr /\ attrs_split_effect ks KEdge w w' enl enr eo.
+Proof. exact two_unsew3_attr_data_none. Qed.
+Print Assumptions C05_two_unsew_attr_data_none.
+
+Theorem C05_two_unsew_attr_data_left `{Sig} : forall E n ks l c w cnt w' cnt',
+  dom3_ok E n -> rng3 n w -> l <> 0 -> l < n -> beta w 2 l <> 0 -> beta w 1 l = 0 -> beta w 1 (beta w 2 l) <> 0 -> NoDup (map fst ks) ->
+  run E (two_unsew3 n ks l) c w cnt = (Done tt, w', cnt') ->
+  let r := beta w 2 l in let w1 := clr2 w l r in
+  exists eo enl enr i0 il ir wa,
+    is_eid3 n w l eo /\ is_eid3 n w1 l enl /\ is_eid3 n w1 r enr /\ is_vid3 n w l i0 /\ is_vid3 n w1 l il /\ is_vid3 n w1 (beta w 1 r) ir /\
+    attrs_split_effect ks KEdge w wa enl enr eo /\ attrs_split_effect ks KVertex wa w' il ir i0.
+Proof. exact two_unsew3_attr_data_left. Qed.
+Print Assumptions C05_two_unsew_attr_data_left.
+
+Theorem C05_two_unsew_attr_data_right `{Sig} : forall E n ks l c w cnt w' cnt',
+  dom3_ok E n -> rng3 n w -> l <> 0 -> l < n -> beta w 2 l <> 0 -> beta w 1 l <> 0 -> beta w 1 (beta w 2 l) = 0 -> NoDup (map fst ks) ->
+  run E (two_unsew3 n ks l) c w cnt = (Done tt, w', cnt') ->
+  let r := beta w 2 l in let w1 := clr2 w l r in
+  exists eo enl enr i0 il ir wa,
+    is_eid3 n w l eo /\ is_eid3 n w1 l enl /\ is_eid3 n w1 r enr /\ is_vid3 n w r i0 /\ is_vid3 n w1 (beta w 1 l) il /\ is_vid3 n w1 r ir /\
+    attrs_split_effect ks KEdge w wa enl enr eo /\ attrs_split_effect ks KVertex wa w' il ir i0.
+Proof. exact two_unsew3_attr_data_right. Qed.
+Print Assumptions C05_two_unsew_attr_data_right.
+
+Theorem C05_two_unsew_attr_data_both `{Sig} : forall E n ks l c w cnt w' cnt',
+  dom3_ok E n -> rng3 n w -> l <> 0 -> l < n -> beta w 2 l <> 0 -> beta w 1 l <> 0 -> beta w 1 (beta w 2 l) <> 0 -> NoDup (map fst ks) ->
+  run E (two_unsew3 n ks l) c w cnt = (Done tt, w', cnt') ->
+  let r := beta w 2 l in let w1 := clr2 w l r in
+  exists eo enl enr j0 jl jr k0 kl kr wa wb,
+    is_eid3 n w l eo /\ is_eid3 n w1 l enl /\ is_eid3 n w1 r enr /\ is_vid3 n w l j0 /\ is_vid3 n w r k0 /\
+    is_vid3 n w1 l jl /\ is_vid3 n w1 (beta w 1 r) jr /\ is_vid3 n w1 (beta w 1 l) kl /\ is_vid3 n w1 r kr /\
+    attrs_split_effect ks KEdge w wa enl enr eo /\ attrs_split_effect ks KVertex wa wb jl jr j0 /\ attrs_split_effect ks KVertex wb w' kl kr k0.
+Proof. exact two_unsew3_attr_data_both. Qed.
+Print Assumptions C05_two_unsew_attr_data_both.
+
+
 (** Tie to the source: [two_sew3] / [two_unsew3] are, verbatim, the programs that tools/tr_sews.py regenerates from
     dim3/sews/two.rs on every run (Map3/GenSews3.v). *)
 From HC Require Import Map3.GenSews3 Map3.GenSews3Laws.
